@@ -296,6 +296,19 @@ def run_pair_case(acc: Acc, seed: int, idx: int) -> None:
         exp = expected_render(tid, "date", {"date": day}, "")
         if got != exp:
             acc.violation(f"[pair/{route}] {t}: content {got!r} is not the rendering of ITS pattern's template ({tid}): expected {exp!r}", case, cls="content is not the rendering of the matching pattern's template (templates sharing a base name)")
+    # the template of one pattern is EDITED and another page is initialised from it in the same process:
+    # the new page must show the new text (no stale copy from the previous rendering)
+    d, tpath, tid = specs[0]
+    (root / tpath).write_text(template_text(tid + "v2", "date"))
+    t2 = f"{d}/20240606.zo"
+    try:
+        templates.init_from_template(root, {_re.compile(rx): Path(tp) for rx, tp, _ in pats}, t2)
+        got = (root / t2).read_text() if (root / t2).exists() else None
+        exp = expected_render(tid + "v2", "date", {"date": "20240606"}, "")
+        if got != exp:
+            acc.violation(f"[pair/{route}] {t2}: after the template was edited the page is {got!r}, expected the rendering of the edited template {exp!r}", case, cls="page rendered from a stale copy of an edited template")
+    except Exception as e:
+        acc.violation(f"[pair/{route}] initialising {t2} after editing the template failed: {type(e).__name__}: {e}", case, cls="template initialisation fails (pair, edited template)")
     acc.sig(("pair", route, tuple(t for t, _ in targets)))
     shutil.rmtree(root.parent, ignore_errors=True)
 
